@@ -427,6 +427,17 @@ def _one(ctx, name, tg, chain, inplace, pre, T, rc, f, defs0, plists, pts0, grid
         exp = [_apply(T, p) for p in pts0[k]]
         got = [R.eval_point(d1, prm) for prm in pl]
         ctx.close(name + '.points', got, exp, TOL, scale, rc, fk)
+    if not inplace:
+        # after the result's views were read: the input's unweighted points / weights are still its own
+        for k, e0 in enumerate(elems):
+            P0, w0 = up0[k]
+            got = [[F(c) for c in p] for p in e0.ctrlpts]
+            okv = got == [list(p) for p in P0]
+            if descs[k]['rational']:
+                _ = [list(p) for p in new_elems[k].ctrlpts]
+                okv = okv and [F(x) for x in e0.weights] == list(w0) and [[F(c) for c in p] for p in e0.ctrlpts] == [list(p) for p in P0]
+            ctx.check(name + '.input_views_unchanged', okv, rc, dict(f, element=k, rational=descs[k]['rational']),
+                      'input ctrlpts/weights unchanged after reading the result', None)
     if cont:
         # evaluated points of the container itself
         fc = dict(f, element=None)
